@@ -615,6 +615,27 @@ package erpc
 //@   ensures[push-fallback-installed] *r.subRouter.unknownPush != nil && fresh(*r.subRouter.unknownPush) && (*r.subRouter.unknownPush).isUnknown
 //@   ensures[call-fallback-untouched] r.subRouter.unknownCall == old(r.subRouter.unknownCall) && *r.subRouter.unknownCall == old(*r.subRouter.unknownCall)
 
+// the configured name mapper is a function: the same arguments give the same name.
+// mappedName(a, b) stands for globalServiceMethodMapper(a, b).
+//@ spec fn mappedName(prefix string, name string) string
+//@ iface dynamic:func(prefix string, name string) string
+//@   modifies nothing
+//@   ensures[deterministic] result == mappedName(p0, p1)
+// a sub-router's prefix is the mapper's join of the parent prefix and the group
+// name (so nested groups get the separator of the configured mapper), and it
+// shares the parent's tables
+//@ func (*SubRouter).SubRoute
+//@   property C10
+//@   flags libframe frame-unchecked
+//@   requires r != nil && r.pluginContainer != nil
+//@   requires?[container-wellformed] r.pluginContainer.left != nil && r.pluginContainer.middle != nil && r.pluginContainer.right != nil
+//@   ensures[prefix-joined-by-the-mapper] result.prefix == mappedName(r.prefix, prefix)
+//@   ensures[tables-shared-with-parent] result.callHandlers == r.callHandlers && result.pushHandlers == r.pushHandlers && result.unknownCall == r.unknownCall && result.unknownPush == r.unknownPush
+// a controller struct gets one handler per method: the closure built in iteration i
+// keeps the method of iteration i (its own captured variable), the pool is shared
+//@ percapture makeCallHandlersFromStruct$2 methodFunc @C10
+//@ percapture makePushHandlersFromStruct$2 methodFunc @C10
+
 // name mapping: total (no out-of-range write when an underscore is rewritten)
 //@ func toServiceMethods
 //@   property C10
@@ -1034,6 +1055,30 @@ package erpc
 //@   ghostset self.#gkeys = store(old(self.#gkeys), key, true)
 //@   ensures[loaded-or-stored] result.1 == old(self.#gkeys[key]) && (result.1 ==> result.0 == old(self.#gvals[key])) && (!result.1 ==> result.0 == value)
 //@   ensures[indexed-sessions-wellformed] result.1 ==> istype(result.0, type(*session)) && sessShape(as(result.0, type(*session))) && as(result.0, type(*session)).peer.sessHub != nil && as(result.0, type(*session)).peer.sessHub.sessions != nil && (as(result.0, type(*session)).didCloseNotify == 0 <==> !chanClosed(as(result.0, type(*session)).closeNotifyCh)) && (as(result.0, type(*session)).didCloseNotify == 0 || as(result.0, type(*session)).didCloseNotify == 1)
+// C07: an id change re-keys the index: the session is indexed under its new id
+// and the entry under the old id (if it maps to this session) is gone - whatever
+// the session's status (a hook may rename a session that is still preparing,
+// SetID publishes it, and a later rejection removes only the current id)
+//@ func (*session).SetID
+//@   property C07
+//@   flags libframe frame-unchecked
+//@   requires sessInv(s)
+//@   modifies allof(type(session)), allof(type(socket.socket)), lockset, waitgroups, channels, mapviews, ghost.hubSets
+//@   ensures[id-assigned] len(newID) > 0 ==> sessID(s) == newID
+//@   ensures[indexed-under-current-id] hubHas(s.peer.sessHub, sessID(s), s)
+//@   ensures[old-entry-removed] old(sessID(s)) != sessID(s) ==> !hubHas(s.peer.sessHub, old(sessID(s)), s)
+
+// assumed about closing the OLDER holder of an id inside set: it is a different
+// session, and closing it leaves the identity (socket, peer, id) of the session
+// being indexed alone. (Close's own frame is too wide to derive this; the index
+// clauses are the ones verified for Close itself.)
+//@ trusted (*session).Close in erpc.(*SessionHub).set
+//@   params other
+//@   flags libframe
+//@   ghostset ghost.sessionCloses = old(ghost.sessionCloses) + 1
+//@   modifies allof(type(session)), allof(type(socket.socket)), lockset, waitgroups, channels, mapviews, ghost.sessionCloses, ghost.postDisconnectRuns
+//@   ensures[index-only-own-entry] forall h *SessionHub, k iface :: {h.sessions.#gkeys[k]} old(h.sessions.#gvals[k]) != iface(type(*session), other) ==> h.sessions.#gkeys[k] == old(h.sessions.#gkeys[k]) && h.sessions.#gvals[k] == old(h.sessions.#gvals[k])
+//@   ensures[other-session-keeps-identity] other != sess ==> sess.socket == old(sess.socket) && sess.peer == old(sess.peer) && sess.peer.sessHub == old(sess.peer.sessHub) && sessID(sess) == old(sessID(sess))
 //@ ghost global hubSets int
 //@ func (*SessionHub).set
 //@   property C07
@@ -1042,6 +1087,7 @@ package erpc
 //@   requires?[session-wellformed] sh.sessions != nil && sess != nil && sessShape(sess) && sess.peer.sessHub == sh
 //@   modifies allof(type(session)), allof(type(socket.socket)), lockset, waitgroups, channels, mapviews
 //@   ensures[indexed-under-current-id] hubHas(sh, old(sessID(sess)), sess)
+//@   ensures[own-identity-kept] sess.socket == old(sess.socket) && sess.peer == old(sess.peer) && sess.peer.sessHub == old(sess.peer.sessHub) && sessID(sess) == old(sessID(sess))
 
 // a connection rejected by an accept hook is closed as a SESSION (so that an index
 // entry a hook created with SetID is removed and the disconnect hook runs), not
